@@ -22,7 +22,7 @@ class CapConn:
         self.num_commands_sent = 0
 
     def register_message_callback(self, cb):
-        pass
+        self.cbs = getattr(self, "cbs", []) + [cb]
 
     def unregister_message_callback(self, cb):
         pass
@@ -207,6 +207,45 @@ def run(chk: Check):
                     if why:
                         chk.violation(f"attr:{c.__name__}.{attr}:history-dependent", f"in a sequence of assignments to {[a for a, *_ in order]}: {c.__name__}.{attr} = {v!r} transmits {out!r}: {why}", {"class": c.__name__, "attr": attr, "value": repr(v), "observed": out, "sequence": [a for a, *_ in order]})
 
+    # (d) the receiver's state plays no part: the device first reports values for the stepped functions of the object
+    #     (a low maximum volume, the current volume, tone settings, a frequency), then the application writes
+    from ynca.constants import Subunit as _Su  # noqa: F401
+    from ynca.connection import YncaProtocolStatus as _St
+
+    srng = random.Random(chk.seed * 13 + 11)
+    for c, attrs in by_class.items():
+        for rep_round in range(3 if chk.tier == "quick" else 12):
+            conn = CapConn()
+            inst = c(conn)
+            inst._initialized = True
+            reported = []
+            for attr, f, dec, step, special in attrs:
+                k = srng.choice([-41, -20, -3, 0, 3, 33, 180])
+                text = H.number_to_string_with_stepsize(float(k * step), dec, float(step) if step.denominator != 1 else int(step))
+                if srng.random() < 0.85:
+                    reported.append((f.name, text))
+            srng.shuffle(reported)
+            for fname, text in reported:
+                for cb in getattr(conn, "cbs", []):
+                    try:
+                        cb(_St.OK, f"{inst.id}", fname, text)
+                    except Exception:  # noqa: C10's matter
+                        pass
+            for attr, f, dec, step, special in attrs:
+                for v in vals[:40] + [float(k * step) for k in (-200, -41, -20, -3, 0, 3, 33, 180, 400)]:
+                    conn.puts.clear()
+                    try:
+                        setattr(inst, attr, v)
+                    except Exception as e:  # noqa
+                        chk.violation(f"attr:{c.__name__}.{attr}:raises", f"{c.__name__}.{attr} = {v!r} raises {type(e).__name__} after the device reported {reported!r}", {"class": c.__name__, "attr": attr, "value": repr(v), "reported": reported})
+                        continue
+                    chk.count_case(["attr-after-reports", c.__name__, attr, repr(v), reported], True)
+                    out = conn.puts[0][2] if conn.puts else None
+                    why = judge(v, out, dec, step, special)
+                    if why:
+                        chk.violation(f"attr:{c.__name__}.{attr}:state-dependent", f"after the device reported {reported!r}: {c.__name__}.{attr} = {v!r} transmits {out!r}: {why}", {"class": c.__name__, "attr": attr, "value": repr(v), "observed": out, "reported": reported})
+                        break
+
     # ------------------------------------------------------------ model correspondence
     validated = 0
     if not any(b["obligation"].startswith(("translator", "compile")) for b in chk.broken):
@@ -290,6 +329,14 @@ def replay(path):
             if c.__name__ == r.get("class") and attr == r.get("attr"):
                 conn = CapConn()
                 inst = c(conn)
+                if r.get("reported"):
+                    from ynca.connection import YncaProtocolStatus as _St
+
+                    inst._initialized = True
+                    for fname, text in r["reported"]:
+                        for cb in getattr(conn, "cbs", []):
+                            cb(_St.OK, f"{inst.id}", fname, text)
+                    print("after the device reported", r["reported"])
                 setattr(inst, attr, v)
                 out = conn.puts[0][2]
                 print(f"{c.__name__}.{attr} = {v!r} transmits {out!r}; judged: {judge(v, out, dec, step, special) or 'ok'}")
